@@ -20,15 +20,15 @@ SPEC = {
                   "executable specification that does not use the model (checksums recomputed, payload concatenation, flag/seq/ID rules).",
     "level_note": "checksum.Checksum is modelled as the RFC 1071 sum (that the assembly returns exactly that value is property C25). The link "
                   "model<->Go is differential testing and as strong as its generator (sweep of all 256 flag bytes, every IHL and data offset, "
-                  "header-only payloads, computed-zero checksums, 65535-byte superpackets; then random geometry). For larger cases the harness "
-                  "prints an observed payload as a reference into the input when it found it byte-identical there (headers are always literals).",
+                  "header-only payloads, computed-zero checksums, 65535-byte superpackets; then random geometry). Inputs and every observed segment "
+                  "are complete byte literals (packed seven bytes per primitive-integer literal, unpacked in Coq).",
     "gens": [],
     "props": ["props/C24.v"],
     "corr": ["corr/Segment_corr.v"],
-    "comps": [{"comp": "segment", "n_quick": 220, "n_thorough": 6000}],
+    "comps": [{"comp": "segment", "n_quick": 160, "n_thorough": 3000}],
     "trusted": ["model/Segment.v is a hand-written mirror of overlay/tio/virtio/segment_linux.go and of decodeRead/SegmentSuperpacket in overlay/tio (tied by correspondence)",
                 "checksum.Checksum(buf, init) = fold16 (init + sum16 buf) (property C25; also exercised here through the real segmenters)",
-                "the harness's byte comparison behind payload references (ORef) in larger cases; small cases and the whole boundary sweep carry complete literals"],
+                "case literals are packed into Coq primitive 63-bit integers (PrimInt63 land/lsr/eqb under vm_compute unpack them)"],
     "assumptions": ["well-formed superpacket: bytes < 256, gso >= 1, hdr_len <= |pkt|, hdr_len <= 120, IPv4 with 20 <= IHL*4 <= csum_start or IPv6 with csum_start >= 40, "
                     "L4 header = hdr_len - csum_start bytes (TCP data offset >= 5; UDP 8), hdr_len + min(gso, payload) <= 65535",
                     "C24_pipeline_wellformed derives these from decodeRead's checks except: IPv6 csum_start >= 40 and the 16-bit length bound (kernel-guaranteed, not checked by nebula)"],
